@@ -13,6 +13,7 @@ CASES = [
  ('c09-arc-crc', 'C09', UT, 'State::<XMODEM>::calculate(get_hash_tag(key)) as usize % SLOT_NUM', 'State::<ARC>::calculate(get_hash_tag(key)) as usize % SLOT_NUM', 'violation'),
  ('c09-mod-16383', 'C09', UT, 'pub const SLOT_NUM: usize = 16384;', 'pub const SLOT_NUM: usize = 16383;', 'violation'),
  ('c09-slotmap-index', 'C09', SL, 'self.addrs.get(addr_index).map(|s| s.as_str())', 'self.addrs.get(addr_index + 1).map(|s| s.as_str())', 'violation'),
+ ('c09-table-drops-range-end', 'C09', SL, 'slots.push((range.start(), range.end()));', 'slots.push((range.start(), range.start()));', 'violation'),
  # ---- C15 / C16
  ('c15-no-cr-check-line', 'C15', PS, 'if lf_index == 0 || buf.get(lf_index - 1) != Some(&CR) {', 'if lf_index == 0 {', 'violation'),
  ('c15-bulk-plus-one', 'C15', PS, 'Ok((BulkStrIndex::Str(s), consumed + content_size + 2))', 'Ok((BulkStrIndex::Str(s), consumed + content_size + 1))', 'violation'),
@@ -62,6 +63,10 @@ CASES = [
  ('c20-restricted-not-refused', 'C20', 'src/proxy/compress.rs', 'CompressionStrategy::SetGetOnly => return Err(CompressionError::RestrictedCmd),', 'CompressionStrategy::SetGetOnly => return Err(CompressionError::UnsupportedCmdType),', 'violation'),
  ('c20-executor-forwards-after-io-error', 'C20', 'src/proxy/executor.rs', '            | Err(CompressionError::UnsupportedCmdType)\n            | Err(CompressionError::Disabled) => (),\n            Err(CompressionError::InvalidRequest)', '            | Err(CompressionError::UnsupportedCmdType)\n            | Err(CompressionError::Io(_))\n            | Err(CompressionError::Disabled) => (),\n            Err(CompressionError::InvalidRequest)', 'violation'),
  ('c20-benign-comment', 'C20', 'src/proxy/compress.rs', '    pub fn try_compressing_cmd_ctx(&self, cmd_ctx: &mut CmdCtx) -> Result<(), CompressionError> {\n        let strategy = self.config.get_config();', '    pub fn try_compressing_cmd_ctx(&self, cmd_ctx: &mut CmdCtx) -> Result<(), CompressionError> {\n        // strategy of the cluster this proxy serves\n        let strategy = self.config.get_config();', 'ok'),
+ ('c04-add-proxy-no-bump-on-clear', 'C04', U, '        if !exists || cleared {\n            self.store.bump_global_epoch();', '        if !exists {\n            self.store.bump_global_epoch();', 'violation'),
+ ('c04-add-proxy-keeps-reports', 'C04', U, '        cleared = self.store.failures.remove(&proxy_address).is_some() || cleared;', '        cleared = self.store.failures.contains_key(&proxy_address) || cleared;', 'violation'),
+ ('c04-add-failure-no-bump', 'C04', U, '            return false;\n        }\n        self.store.bump_global_epoch();\n        self.store\n            .failures', '            return false;\n        }\n        self.store\n            .failures', 'violation'),
+ ('c04-add-failure-same-reporter-counts-twice', 'C04', U, '.map(|failures| failures.contains_key(&reporter_id))', '.map(|failures| failures.contains_key(&address))', 'violation'),
  # ---- C01
  ('c01-compact-adjacent', 'C01', CL, 'if s.end() + 1 >= e.start() {', 'if s.end() >= e.start() {', 'violation'),
  ('c01-compact-truncate', 'C01', CL, 'self.0.truncate(a + 1);', 'self.0.truncate(a);', 'violation'),
